@@ -1,5 +1,5 @@
 """Per-property check procedures (DESIGN.md §5)."""
-import os, re
+import os, re, json
 from checklib import *  # noqa
 
 TRUSTED_COMMON = [
@@ -220,6 +220,110 @@ def C09(c):
              "bit-for-bit inside the harness; a flag line per route")
 
 
+def run_extract(c):
+    """translator: regenerate lean/Generated and the harness registry from /repo's current source"""
+    rc, out, wall = sh(["python3", os.path.join(VERIF, "tools", "extract.py"), "/repo"], timeout=600)
+    try:
+        info = json.loads(out.strip().split("\n")[-1])
+    except Exception:
+        info = {"error": out[-500:]}
+    c.coverage["translator"] = {k: info.get(k) for k in ("indicators", "untranslated", "serde_manual", "skipped", "unsafe_sites", "shared_state", "error")}
+    return rc == 0 and "error" not in info
+
+
+def C08(c):
+    run_extract(c)
+    c.proofs()
+    exe = need_harness(c)
+    if exe:
+        c.add_suite(run_suite(exe, "api", c.seed, c.tier, "C08-methods", ["--which", "constant"]), sig_method)
+        c.add_suite(run_suite(exe, "indapi", c.seed, c.tier, "C08-indicators", ["--which", "constant"]), sig_method)
+    return c.finish(
+        level="proof",
+        trusted=TRUSTED_COMMON + NUMERIC_TRUST[:1] + [
+            "the theorems are about the from-scratch specs (prefix invariance, fixed values); they transfer to the model through "
+            "the model=spec theorems of C02-C04 where those exist; indicators and the remaining methods are covered by the run only",
+            "float side: 'constant up to rounding and free of drift' is checked as |out_t - out_1| <= 1e-9*(scale+|out|) for 2000 "
+            "(methods) / 700 (indicators) constant steps, signals and integer outputs exactly",
+        ],
+        rule="every method type x 7 (thorough 16x3) lengths: 2000 copies of the first input, then a stream with 1..300 extra leading "
+             "copies vs none; every indicator x 4 (thorough 12) configurations x 3 candle shapes (flat, ranged, zero-volume): 700 "
+             "copies of the initial candle, then streams with 1..40 extra leading copies; exempt: CollapseTimeframe, windowless "
+             "ADI/Integral configurations (ChaikinOscillator window=0), parabolic SAR first step")
+
+
+def C10(c):
+    run_extract(c)
+    c.proofs()
+    exe = need_harness(c)
+    if exe:
+        c.add_suite(run_suite(exe, "ctor", c.seed, c.tier, "C10-ctor"), sig_method)
+        c.add_suite(run_suite(exe, "indapi", c.seed, c.tier, "C10-indicators", ["--which", "params"]), sig_method)
+    rel = need_harness(c, release=True)
+    if rel:
+        r = run_suite(rel, "ctor", c.seed, c.tier, "C10-ctor-release")
+        r["tag"] = "release"
+        c.add_suite(r, lambda mm: sig_method(mm) + ":release")
+    c.coverage["exhaustive"] = True
+    return c.finish(
+        level="proof",
+        trusted=TRUSTED_COMMON + [
+            "debug profile (overflow checks, debug assertions) as in the baseline suite, plus a release build of the same sweep: "
+            "a wrapped length must show up as a constructor/step disagreement with the model",
+            "indicator init()/validate() are not modelled for C10: every indicator parameter is swept on the real code (all 256 "
+            "values per PeriodType parameter, all MA kinds x boundary lengths, numeric parameters incl. NaN/inf/0/negative/1e6, "
+            "boundary-biased random tuples) and accepted instances are driven with valid candles",
+        ],
+        rule="methods: all 256 values of the length of every method (Conv: 0..300 weights; TSI / reversal detectors: 17x17 boundary "
+             "pairs, thorough all 65 536) through the real constructor and the model constructor (Ok / Err kind / panic must agree), "
+             "then 24 inputs; the finite parameter domain of the single-length methods is enumerated completely")
+
+
+def C11(c):
+    run_extract(c)
+    c.proofs()
+    exe = need_harness(c)
+    if exe:
+        c.add_suite(run_suite(exe, "indapi", c.seed, c.tier, "C11-interface", ["--which", "interface"]), sig_method)
+        c.add_suite(run_suite(exe, "indapi", c.seed, c.tier, "C11-routes", ["--which", "routes"]), sig_method)
+    return c.finish(
+        level="proof",
+        trusted=TRUSTED_COMMON + [
+            "tools/extract.py (translator, ~300 lines): trusted to report what the source says or an `untranslated` entry; its output "
+            "is cross-checked against the running code (size() and NAME from the registry vs the values the code returns)",
+            "set() arm bodies are recognised only in their canonical shape (parse, Err => return Err, Ok(v) => self.<field> = v); "
+            "value parsing itself (str::parse for numbers, MA, Source) is C18's model",
+        ],
+        rule="decide over the regenerated table of all indicators; on the real code: name/NAME, default validates and initialises, "
+             "for every public parameter 6 valid/boundary texts + an unparsable one (exactly the named JSON field changes to the parsed "
+             "value, or Err and nothing changes), 8 unknown names, result shape at every step, static vs Box<dyn> config and instance "
+             "(init, next, over, name, size, validate, set), over/init_fn/into_fn/chunked/clone routes")
+
+
+def C13(c):
+    run_extract(c)
+    c.proofs()
+    exe = need_harness(c)
+    if exe:
+        c.add_suite(run_suite(exe, "window", c.seed, c.tier, "C13-window"), sig_window)
+        c.add_suite(run_suite(exe, "api", c.seed, c.tier, "C13-methods", ["--which", "snapshot"]), sig_method)
+        r = run_suite(exe, "indapi", c.seed, c.tier, "C13-indicators", ["--which", "snapshot"])
+        c.add_suite(r, sig_method)
+        c.coverage["snapshots_skipped_nonfinite_state"] = r.get("stats", {}).get("snapshot_skipped_nonfinite_state", 0)
+    return c.finish(
+        level="proof",
+        trusted=TRUSTED_COMMON + [
+            "serde_derive (bijection on field lists) and serde_json float text round-trip (float_roundtrip feature) are trusted for "
+            "the derived impls; exercised by every snapshot",
+            "JSON cannot represent NaN/inf: snapshots of states holding a non-finite float are counted and skipped "
+            "(snapshots_skipped_nonfinite_state)",
+        ],
+        rule="Window: every capacity, serde round trip at random phases, adversarial JSON (index >= len, len in {MAX-1,MAX,MAX+1,MAX+45}, "
+             "negative / oversized index, wrong types); every method type: snapshot after each of the first 2n+3 steps (every ring "
+             "phase), windowless Integral included; every indicator x 4 (thorough 12) configurations: snapshot after each of the first "
+             "60 steps; restored vs original on the continuation bit-for-bit; configurations round-trip to equal JSON")
+
+
 def replay(prop, path):
     """re-run a replay file: real code through the harness, then the driver"""
     text = open(path).read()
@@ -257,4 +361,4 @@ def replay(prop, path):
     return 1 if res["mismatches"] or res.get("error") else 0
 
 
-PROPS = {"C01": C01, "C02": C02, "C03": C03, "C04": C04, "C14": C14, "C16": C16, "C18": C18, "C17": C17, "C09": C09}
+PROPS = {"C01": C01, "C02": C02, "C03": C03, "C04": C04, "C14": C14, "C16": C16, "C18": C18, "C17": C17, "C09": C09, "C08": C08, "C10": C10, "C11": C11, "C13": C13}
